@@ -26,7 +26,11 @@ CLAIMS = {
              "error_ranges_wellformed (generic over all DSL programs), messages_nonempty (regenerated table). Tied to the Rust "
              "parser by tree/error correspondence and by a step-budget hook that turns non-progress into a deterministic panic; "
              "nesting depth 256 exercised on both sides.",
-        note="rowan tree-builder panics are admitted by the theorem's `Fine` predicate (not excluded statically); the linear "
+        note="C02Builder.lean adds: exec_never_panics / parse_no_panic (the parser model NEVER ends in any of the six panics, tree-builder "
+             "panics and root count included, for every input and every fuel, by a verified abstract interpretation of the builder "
+             "frames) and parser_finishes (one root, no open node); that `parseFuel` = 64*len+4096 suffices is measured (worst case "
+             "~24 per character), not proved. "
+             "The linear "
              "work constant is measured (steps per token on both sides), not proved; stack depth is a runtime measurement.",
         tech="Lean 4 proof: verified abstract-interpretation checker (total-correctness soundness theorem) + decide +kernel on the grammar",
         ref="DESIGN.md §7 C02"),
@@ -46,9 +50,12 @@ CLAIMS = {
              "insertions/replacements; every disagreement not explained by a listed deviation is a violation; typed-accessor "
              "reachability via a walker GENERATED from the asts! table (Rust, real accessors) vs the Lean AstWalk model; the 39 "
              "LLVM files parse clean.",
-        note="Partial: the converse (non-sentence => error) is proved only as the reporting discipline plus the type-level "
-             "converse; outside that it is decided case by case by the recogniser (testing, labelled). 10 deviations of the parser "
-             "from the documented grammar are known findings (DESIGN.md §12.5); accessor reachability has no theorem.",
+        note="Accessor clause: accessors_reach_all / every_node_accessible (for every fragment program every node of the parse tree "
+             "is reached through the typed accessors of the REGENERATED asts! table, accessor results in source order) - proved. "
+             "Converse: reporting discipline + type_converse_partial + statement_skeleton_converse (include/defvar/dump/assert/class "
+             "skeleton relative to the documented grammar extended by what a clean run of `value` consumes); outside that decided "
+             "case by case by the recogniser (testing, labelled). 10 deviations of the parser from the documented grammar are known "
+             "findings (DESIGN.md §12.5).",
         tech="Lean 4 proof (abstract interpreter over token kinds + simulation theorem, per-rule contracts by mutual structural recursion) "
              "over a grammar table regenerated from the documentation + differential correspondence + Earley oracle",
         ref="DESIGN.md §7 C04, §12.5"),
@@ -151,8 +158,12 @@ CLAIMS = {
              "replayed through the model and go-to-definition/find-references are compared at identifier offsets of every "
              "workspace; the log hypotheses are evaluated on every real log; the four coherence clauses are also evaluated "
              "directly on Analysis::goto_definition/references.",
-        note="Model: SymbolMap.lean vs ide/src/symbol_map.rs; iset::IntervalMap semantics assumed as documented in the model; "
-             "the log hypotheses are checked per run, not proved for the indexer.",
+        note="Model: SymbolMap.lean vs ide/src/symbol_map.rs; iset::IntervalMap semantics assumed as documented in the model. "
+             "C06Index.lean discharges the log hypotheses for the log of the indexer MODEL on every workspace: index_refsValid, "
+             "index_namedRefs, index_textOk, index_disjointLocs (invariant NamesOK through all indexer functions), giving "
+             "index_cursor_is_target_or_reference and index_same_text unconditionally; index_goto_from_references_agrees keeps the "
+             "single residual hypothesis RefStable (refStable_not_from_ready shows it does not follow from the tree facts alone; it "
+             "is still evaluated on every real log).",
         tech="Lean 4 proof (invariants over operation logs) + op-sequence correspondence by replaying the real log",
         ref="DESIGN.md §7 C06"),
     "C07": dict(
